@@ -68,8 +68,11 @@ def summarise(ctx, op, run, I, h, can, ret, end, unsafe_mode):
     s.mutators_empty = h.mutators.empty if isinstance(h.mutators, G.AbsMutators) else None
     s.script = run.script[:run.pos]
     pe = h.proto_emitted
-    s.proto_emitted_pre = None
-    s.proto_emitted_post = pe.value if isinstance(pe, G.LazyBool) else pe
+    s.proto_emitted_pre = pe.value if isinstance(pe, G.LazyBool) else pe
+    cur = h.g.fields[h.ctx.field_index(h.ctx.gen_adt, "state")].fields[h.ctx.field_index(h.ctx.state_adt, "proto_emitted")]
+    s.proto_emitted_post = (cur.value if isinstance(cur, G.LazyBool) else cur)
+    if cur is pe:
+        s.proto_emitted_post = "unchanged"
     s.steps = run.steps
     s.popped = [e[1].id for e in run.events if e[0] == "pop"]
     return s
